@@ -163,6 +163,29 @@ static void mode_normstr(void) {
                     } else { snprintf(obs, sizeof obs, "wcsnorm_s(%s, dmax=%zu) returns %d", fm, dmax, rc); vio("C17", "wcsnorm_s-string-unexpected-code", det, obs, src[0]); }
                     { char b[80]; snprintf(b, sizeof b, "n;%d;%s;%d;%zu", len, det, rc, (size_t)rl); distinct_add(hash_str(b)); }
                 }
+                /* overlapping operands ("ESOVRLP when buffers overlap"): src starting k elements into dest (k >= 0) or dest starting -k elements into
+                   the source string; either the overlap is reported (once, dest emptied) or the call returns exactly the text disjoint operands get */
+                {   size_t dmax = dl + 6;
+                    for (long k = -(long)len; k < (long)dmax; k++) {
+                        size_t tot = dmax + (size_t)len + 1 + (size_t)(k < 0 ? -k : k);
+                        wchar_t *blk = place_end(0, tot * sizeof(wchar_t)); for (size_t q = 0; q < tot; q++) blk[q] = 0x7878;
+                        wchar_t *d = k >= 0 ? blk : blk + (-k), *sp = k >= 0 ? blk + k : blk;
+                        memcpy(sp, src, (len + 1) * sizeof(wchar_t));
+                        rsize_t l = 99; errno_t rc = -999; probes_reset();
+                        FENCED(rc = _wcsnorm_s_chk(d, dmax, sp, mode ? WCSNORM_NFC : WCSNORM_NFD, &l, BOS_UNKNOWN));
+                        n_cases++;
+                        char det[100]; snprintf(det, sizeof det, "%s|overlap|%s", fm, k == 0 ? "same-pointer" : k > 0 ? "src-inside-dest" : "dest-inside-src");
+                        if (g_fence.faulted) { n_faults++; snprintf(obs, sizeof obs, "wcsnorm_s(%s) with src = dest%+ld: %s fault", fm, k, g_fence.is_write ? "WRITE" : "READ"); vio(g_fence.is_write ? "C01" : "C02", g_fence.is_write ? "wcsnorm_s-W-fault" : "wcsnorm_s-R-fault", det, obs, src[0]); continue; }
+                        if (rc == ESOVRLP) {
+                            if (g_h.count != 1) { snprintf(obs, sizeof obs, "wcsnorm_s(%s) with src = dest%+ld: ESOVRLP with %d handler calls", fm, k, (int)g_h.count); vio("C05", "wcsnorm_s-handler-count", det, obs, src[0]); }
+                            if (k != 0 && d[0] != 0) { snprintf(obs, sizeof obs, "wcsnorm_s(%s) with src = dest%+ld reports the overlap but dest[0]=%#x", fm, k, (unsigned)d[0]); vio("C04", "wcsnorm_s-failed-dest-not-empty", det, obs, src[0]); }
+                        } else if (rc == EOK) {
+                            size_t got = wcsnlen(d, dmax);
+                            if (got != rl || wmemcmp(d, ref[mode], rl) || l != rl) { snprintf(obs, sizeof obs, "wcsnorm_s(%s, dmax=%zu) with src = dest%+ld (%d-character source) returns EOK with a corrupted text (%zu characters, disjoint operands give %zu)", fm, dmax, k, len, got, (size_t)rl); vio("C05", "wcsnorm_s-overlap-not-reported-and-result-corrupted", det, obs, src[0]); }
+                        } else { snprintf(obs, sizeof obs, "wcsnorm_s(%s) with src = dest%+ld returns %d", fm, k, rc); vio("C05", "wcsnorm_s-overlap-unexpected-code", det, obs, src[0]); }
+                        { char b[80]; snprintf(b, sizeof b, "o;%d;%s;%d", len, det, rc); distinct_add(hash_str(b)); }
+                    }
+                }
             }
         }
     }
